@@ -3,7 +3,7 @@
    nothing is taken off while an acquired barrier is unfinished. *)
 From Coq Require Import ZArith Bool List Lia Sorted.
 From Verif Require Import Word Bits Fields DqFields Conc Gen_consts Gen_dqstate Lane_fields CLane_fields CLane CLane_inv CLane_proofs
-  CLane_main.
+  CLane_steps1 CLane_main.
 Import ListNotations.
 Local Open Scope Z_scope.
 
@@ -690,4 +690,336 @@ Proof.
       * split; [|discriminate]. intros _. rewrite (proj2 Kx N) in Hj. injection Hj as <- <-. split; [reflexivity|left; reflexivity].
     + intros k e v j Hq. rewrite Pw, E3, E5. destruct (Z.eq_dec u t) as [->|Ne]; [rewrite Pt in Hq; rewrite Hq in H1; discriminate|].
       rewrite Po in Hq by exact Ne. destruct (R3 k e v j Hq) as (X & Y & Z). split; [exact X|]. split; [right; exact Y|exact Z].
+Qed.
+
+(* ---- every step ---- *)
+Lemma owner_facts W s t : Inv W s -> owns (pcs s t) = true ->
+  lockh s = Some t /\ grant s t <> GOwner /\ pcinv W s (pcs s t).
+Proof.
+  intros (_ & _ & T) Ow. destruct (T t) as [_ T2 _ _ T5 T6]. split; [apply T2; left; exact Ow|]. split; [|exact (T6 Ow)].
+  intros X. destruct (T5 X). congruence.
+Qed.
+
+Lemma nowait_grant W s t : Inv W s -> waitpc (pcs s t) = false -> grant s t = GNone.
+Proof.
+  intros (_ & _ & T) Hw. destruct (T t) as [_ _ _ T4 _ _]. destruct (grant s t) eqn:E; [reflexivity| |]; exfalso;
+    (assert (X : waitpc (pcs s t) = true) by (apply T4; discriminate)); congruence.
+Qed.
+
+Lemma lock_taken W s s' t : Inv W s -> Inv W s' -> (forall u, u <> t -> pcs s' u = pcs s u) -> grant s' = grant s ->
+  owns (pcs s t) = false -> grant s t = GNone -> lockh s' = Some t -> lockh s = None.
+Proof.
+  intros HI HI' Po Eg Ow Gt L'. destruct (lock_frame W s s' t HI HI' Po Eg) as [L|[L|(_ & X & _)]]; [|exact L|congruence].
+  exfalso. rewrite L' in L. destruct HI as (_ & _ & T). destruct (T t) as [_ T2 _ _ _ _]. symmetry in L. apply T2 in L.
+  destruct L; congruence.
+Qed.
+
+Ltac gcases Hs :=
+  repeat (lazy beta iota zeta in Hs; match type of Hs with
+          | (if ?c then _ else _) = Some _ => destruct c eqn:?Hc
+          | match ?x with Commit _ _ => _ | NoCommit _ _ => _ | Restart _ => _ | Crash _ => _ end = Some _ => destruct x; try discriminate Hs
+          | match ?x with [] => _ | _ :: _ => _ end = Some _ => destruct x eqn:Hl; try discriminate Hs
+          | match ?x with GNone => _ | GReader => _ | GOwner => _ end = Some _ => destruct x eqn:Hg; try discriminate Hs
+          end); lazy beta iota zeta in Hs; try discriminate Hs; apply Some_inj in Hs.
+
+Ltac pcif := repeat (match goal with
+   | |- context [if ?c then _ else _] => destruct c
+   | |- context [match ?l with [] => _ | _ :: _ => _ end] => destruct l
+   | |- context [after ?k] => is_var k; destruct k
+   | |- context [dn_cont _ _ _] => unfold dn_cont end); try reflexivity.
+
+Ltac frame_case W t HI HI' H2 Hpc :=
+  eapply (frame_step W _ _ t _ HI HI' H2);
+    [ unfold same2; gcbn; repeat split; reflexivity | gcbn; reflexivity | rewrite Hpc; reflexivity | pcif
+    | rewrite Hpc; pcif | pcif | rewrite Hpc; reflexivity ].
+
+Ltac fld := gcbn; reflexivity.
+Ltac same_lists_tac := unfold same_lists; gcbn; repeat split; reflexivity.
+
+Lemma gstep_preserves2 W s t s' : Inv W s -> Inv2 s -> valid_tid t -> gstep W s t = Some s' -> Inv2 s'.
+Proof.
+  intros HI H2 Vt Hs. assert (HI' : Inv W s') by (eapply gstep_preserves; eassumption).
+  destruct (pcs s t) eqn:Hpc; unfold gstep in Hs; rewrite Hpc in Hs.
+  all: lazy beta iota zeta in Hs; try discriminate Hs.
+  all: try (solve [gcases Hs; subst s'; frame_case W t HI HI' H2 Hpc]).
+  - (* S_rsv *) gcases Hs; subst s'; [|frame_case W t HI HI' H2 Hpc].
+    eapply (fast_acquire s _ t _ false H2); try fld; try (rewrite Hpc; reflexivity); try reflexivity.
+    + left. repeat split; fld.
+    + left. split; fld.
+  - (* R_call *) gcases Hs; subst s'. eapply (callout_begin s _ t _ i H2); try same_lists_tac; try fld; rewrite ?Hpc; reflexivity.
+  - (* R_incall *) gcases Hs; subst s'. eapply (callout_end s _ t _ i H2); try same_lists_tac; try fld; rewrite ?Hpc; reflexivity.
+  - (* B_acq *) gcases Hs; subst s'; [|frame_case W t HI HI' H2 Hpc].
+    eapply (fast_acquire s _ t _ true H2); try fld; try (rewrite Hpc; reflexivity); try reflexivity.
+    + left. repeat split; fld.
+    + right. split; [|split; fld]. eapply (lock_taken W s _ t HI HI').
+      * intros u Ne. gcbn. apply upd_other. exact Ne.
+      * fld.
+      * rewrite Hpc. reflexivity.
+      * apply (nowait_grant W s t HI). rewrite Hpc. reflexivity.
+      * fld.
+  - (* B_call *) gcases Hs; subst s'. eapply (callout_begin s _ t _ i H2); try same_lists_tac; try fld; rewrite ?Hpc; reflexivity.
+  - (* B_incall *) gcases Hs; subst s'. eapply (callout_end s _ t _ i H2); try same_lists_tac; try fld; rewrite ?Hpc; reflexivity.
+  - (* DBW_pop *) gcases Hs; subst s'. destruct (owner_facts W s t HI) as (L & G & P); [rewrite Hpc; reflexivity|].
+    rewrite Hpc in P. cbn in P. destruct P as (Bm & _ & Hb & Hw). unfold head_bar, head_wt in Hb, Hw. rewrite Hl in Hb, Hw.
+    eapply (pop_barrier W s _ t _ i l HI H2 Hl Hb L Bm); try fld; try (rewrite Hpc; reflexivity); try exact G.
+    right. eauto.
+  - (* DBW_xfer *) gcases Hs; subst s'.
+    assert (X : forall s1, same_lists s s1 -> rq s1 = rq s -> started s1 = started s -> finished s1 = finished s ->
+                 grant s1 = upd (grant s) u GOwner -> lockh s1 = Some u -> pcs s1 = pcs s -> Inv2 (set_pc s1 t (DBW_wake k u))).
+    { intros s1 A1 A2 A3 A4 A5 A6 A7.
+      apply (lock_handoff W s (set_pc s1 t (DBW_wake k u)) t k enqb u i HI H2 A1 A2 A3 A4 Hpc A5 A6). gcbn. rewrite A7. reflexivity. }
+    destruct (enqb =? 0); apply X; try same_lists_tac; fld.
+  - (* DN_pop *) destruct (owner_facts W s t HI) as (L & G & P); [rewrite Hpc; reflexivity|].
+    rewrite Hpc in P. cbn in P. destruct P as (_ & _ & _ & _ & Hb). unfold head_nb in Hb.
+    pose proof HI as (_ & (r & GI) & _).
+    gcases Hs; subst s'; try rewrite Hl in Hb.
+    + eapply (pop_reader s _ t _ i l H2 Hl Hb L); try fld; try (rewrite Hpc; reflexivity); try exact G.
+      * intros N. apply (g_wt W s r GI i); [rewrite Hl; left; reflexivity|exact N].
+      * left. apply Z.eqb_eq in Hc. repeat split; try fld. exact Hc.
+      * pcif.
+      * pcif.
+      * rewrite Hpc. pcif.
+    + eapply (pop_reader s _ t _ i l H2 Hl Hb L); try fld; try (rewrite Hpc; reflexivity); try exact G.
+      * intros N. apply (g_wt W s r GI i); [rewrite Hl; left; reflexivity|exact N].
+      * right. apply Z.eqb_neq in Hc. repeat split; try fld. exact Hc.
+  - (* A_acq *) gcases Hs; subst s'; [|frame_case W t HI HI' H2 Hpc].
+    eapply (fast_acquire s _ t _ false H2); try fld; try (rewrite Hpc; reflexivity); try reflexivity.
+    + right. repeat split; fld.
+    + left. split; fld.
+  - (* A_xchg *) gcases Hs; subst s'.
+    eapply (push_step s _ t _ b 0 H2); try fld; try (rewrite Hpc; reflexivity).
+    + pcif.
+    + pcif.
+    + apply (nowait_grant W s t HI). rewrite Hpc. reflexivity.
+    + left. split; [reflexivity|pcif].
+  - (* SW_xchg *) gcases Hs; subst s'.
+    eapply (push_step s _ t _ b t H2); try fld; try (rewrite Hpc; reflexivity).
+    + pcif.
+    + pcif.
+    + apply (nowait_grant W s t HI). rewrite Hpc. reflexivity.
+    + right. split; [reflexivity|pcif].
+  - (* SW_wait *) gcases Hs; subst s'.
+    + eapply (grant_consume W s _ t _ i b HI H2); try same_lists_tac; try fld; try exact Hpc. left. auto.
+    + eapply (grant_consume W s _ t _ i b HI H2); try same_lists_tac; try fld; try exact Hpc. right. auto.
+  - (* W_popn *) destruct (owner_facts W s t HI) as (L & G & P); [rewrite Hpc; reflexivity|].
+    rewrite Hpc in P. cbn in P. destruct P as (_ & _ & _ & _ & _ & Hb). unfold head_nb in Hb.
+    pose proof HI as (_ & (r & GI) & _).
+    gcases Hs; subst s'; try rewrite Hl in Hb.
+    + eapply (pop_reader s _ t _ i l H2 Hl Hb L); try fld; try (rewrite Hpc; reflexivity); try exact G.
+      * intros N. apply (g_wt W s r GI i); [rewrite Hl; left; reflexivity|exact N].
+      * left. apply Z.eqb_eq in Hc. repeat split; try fld. exact Hc.
+    + eapply (pop_reader s _ t _ i l H2 Hl Hb L); try fld; try (rewrite Hpc; reflexivity); try exact G.
+      * intros N. apply (g_wt W s r GI i); [rewrite Hl; left; reflexivity|exact N].
+      * right. apply Z.eqb_neq in Hc. repeat split; try fld. exact Hc.
+  - (* W_popb *) gcases Hs; subst s'. destruct (owner_facts W s t HI) as (L & G & P); [rewrite Hpc; reflexivity|].
+    rewrite Hpc in P. cbn in P. destruct P as (_ & Bm & Hb). unfold head_bar in Hb. rewrite Hl in Hb.
+    eapply (pop_barrier W s _ t _ i l HI H2 Hl Hb L Bm); try fld; try (rewrite Hpc; reflexivity); try exact G.
+    left. eauto.
+  - (* W_call *) gcases Hs; subst s'. eapply (callout_begin s _ t _ i H2); try same_lists_tac; try fld; rewrite ?Hpc; reflexivity.
+  - (* W_incall *) gcases Hs; subst s'. eapply (callout_end s _ t _ i H2); try same_lists_tac; try fld; rewrite ?Hpc; reflexivity.
+Qed.
+
+Lemma begin_preserves2 W s t c s' : Inv W s -> Inv2 s -> valid_tid t -> begin s t c = Some s' -> Inv2 s'.
+Proof.
+  intros HI H2 Vt Hs. assert (HI' : Inv W s') by (eapply begin_preserves; eassumption).
+  unfold begin in Hs. destruct (pcs s t) eqn:Hpc; try discriminate Hs. destruct c.
+  - gcases Hs; subst s'. frame_case W t HI HI' H2 Hpc.
+  - gcases Hs; subst s'. frame_case W t HI HI' H2 Hpc.
+  - gcases Hs; subst s'. frame_case W t HI HI' H2 Hpc.
+  - gcases Hs; subst s'. frame_case W t HI HI' H2 Hpc.
+  - gcases Hs; subst s'. eapply (worker_item s _ t i H2); try same_lists_tac; try fld; try exact Hpc.
+    apply mem_z_in. exact Hc.
+Qed.
+
+Lemma Inv2_init W : Inv2 (init_state W).
+Proof.
+  split.
+  - constructor; cbn; try tauto; try lia.
+    + split; [lia|]. tauto.
+    + constructor.
+    + intros j [L _]. cbn in L. lia.
+  - intros t. constructor; cbn; intros; discriminate.
+Qed.
+
+Theorem step_preserves2 W s a s' : Inv W s -> Inv2 s -> step W s a s' -> Inv2 s'.
+Proof.
+  intros HI H2 Hs. destruct a as [t c|t]; destruct Hs as [Vt Hs].
+  - eapply begin_preserves2; eassumption.
+  - eapply gstep_preserves2; eassumption.
+Qed.
+
+Theorem inv2_reach W s : 2 <= W <= 4094 -> reach W s -> Inv W s /\ Inv2 s.
+Proof.
+  intros HW. apply (invariant_lift _ _ (fun s => Inv W s /\ Inv2 s)).
+  - intros s0 ->. split; [apply Inv_init; exact HW|apply Inv2_init].
+  - intros s0 a s1 [HI H2] Hs. split; [eapply step_preserves; eassumption|eapply step_preserves2; eassumption].
+Qed.
+
+(* ---- consequences: ordering ---- *)
+(* items are taken off the list in the order of their pushes; the ids are the push order *)
+Theorem fifo_pop_order W s : 2 <= W <= 4094 -> reach W s ->
+  rev (pushed s) = rev (popped s) ++ map i_id (lst s) /\ StronglySorted Z.lt (rev (pushed s)).
+Proof. intros HW R. destruct (inv2_reach W s HW R) as [_ [O _]]. split; [exact (q_seq s O)|exact (q_sorted s O)]. Qed.
+
+(* writer-lock order for pushed items: if i was pushed before j and one of them is a barrier, j does not start (is not even
+   taken off the list) before i has finished *)
+Theorem barrier_orders_fifo W s i j : 2 <= W <= 4094 -> reach W s ->
+  In i (pushed s) -> In j (pushed s) -> i < j -> kinds s i = true \/ kinds s j = true ->
+  (In j (popped s) \/ In j (started s)) -> In i (finished s).
+Proof.
+  intros HW R Hi Hj Lt K Hs. destruct (inv2_reach W s HW R) as [_ [O _]].
+  assert (Pj : In j (popped s)).
+  { destruct Hs as [Hs|Hs]; [exact Hs|]. destruct (q_hist s O j Hs) as [_ [X|X]]; [exact X|contradiction]. }
+  exact (q_order s O i j Hi Pj Lt K).
+Qed.
+
+(* exclusion for every way of acquiring (fast paths included): while a barrier is acquired and unfinished, every other
+   acquired item has finished; nothing else starts *)
+Theorem barrier_excludes_acquired W s b j : 2 <= W <= 4094 -> reach W s ->
+  acquired s b -> kinds s b = true -> ~ In b (finished s) -> acquired s j -> j <> b -> In j (finished s).
+Proof. intros HW R. destruct (inv2_reach W s HW R) as [HI H2]. exact (acquired_exclusion W s b j HI H2). Qed.
+
+(* the log is tied to the program points: an item runs only after it was acquired; it finishes only after it started *)
+Theorem history_wellformed W s : 2 <= W <= 4094 -> reach W s ->
+  (forall i, In i (started s) -> acquired s i) /\ (forall i, In i (finished s) -> In i (started s)) /\
+  (forall t i, runs (pcs s t) = Some i -> acquired s i /\ kinds s i = runs_barrier (pcs s t) /\
+                                          (in_call (pcs s t) = true -> In i (started s))).
+Proof.
+  intros HW R. destruct (inv2_reach W s HW R) as [_ [O OT]]. split; [exact (q_hist s O)|]. split; [exact (q_fin s O)|].
+  intros t i. exact (r_runs s t (OT t) i).
+Qed.
+
+(* "acquired" is stable: ids are never reused, nothing returns to the list *)
+Lemma acquired_stable W s a s' : step W s a s' -> forall i, acquired s i -> acquired s' i.
+Proof.
+  assert (X : forall s s', nextid s <= nextid s' -> incl (popped s) (popped s') ->
+              (forall j, In j (pushed s') -> In j (pushed s) \/ nextid s <= j) -> forall i, acquired s i -> acquired s' i).
+  { intros s0 s1 A B C i [L H]. split; [lia|]. destruct H as [H|H]; [left; apply B; exact H|]. right. intros Y.
+    destruct (C i Y); [contradiction|lia]. }
+  intros Hs. destruct a as [t c|t]; destruct Hs as [_ Hs].
+  - unfold begin in Hs. destruct (pcs s t); try discriminate Hs. destruct c; gcases Hs; subst s'; apply X; gcbn;
+      try lia; try apply incl_refl; auto.
+  - unfold gstep in Hs. destruct (pcs s t) eqn:Hpc; lazy beta iota zeta in Hs; try discriminate Hs.
+    all: gcases Hs; subst s'.
+    all: try (destruct (enqb =? 0)).
+    all: apply X; gcbn; try lia; try apply incl_refl; try (apply incl_tl; apply incl_refl); auto.
+    all: intros j [<-|Hj]; [right; lia|left; exact Hj].
+Qed.
+
+(* ---- non-vacuity of the ordering statements (width 4): ids 0, 1 are the two dispatch_sync readers of ex_acts1, 2 is the
+   barrier pushed behind them, 3 an async item pushed behind the barrier ---- *)
+Definition ex_acts3 : list action :=
+  ex_acts1 ++ [ABegin 6 (CAsync false 0 false); AStep 6; AStep 6] ++
+  [AStep 1; AStep 1; AStep 2; AStep 2] ++ repeat (AStep 2) 3 ++ [ABegin 5 (CWorkerLane 0)] ++ repeat (AStep 5) 5.
+Definition ex_acts4 : list action := ex_acts3 ++ repeat (AStep 5) 6 ++ [ABegin 7 (CWorkerItem 3); AStep 7].
+
+Lemma ordering_nonvacuous :
+  (exists s, reach 4 s /\ pushed s = [3; 2] /\ popped s = [2] /\ kinds s 2 = true /\ kinds s 3 = false /\
+             started s = [2; 1; 0] /\ finished s = [1; 0] /\ in_barrier_callout (pcs s 5) = true /\
+             acquired s 2 /\ acquired s 0 /\ acquired s 1 /\ ~ acquired s 3) /\
+  (exists s, reach 4 s /\ pushed s = [3; 2] /\ kinds s 2 = true /\ pcs s 7 = R_incall 3 /\
+             started s = [3; 2; 1; 0] /\ finished s = [2; 1; 0]).
+Proof.
+  split.
+  - destruct (run 4 (init_state 4) ex_acts3) as [s|] eqn:E; [|vm_compute in E; discriminate].
+    exists s. split.
+    + apply (run_reach 4 ex_acts3 (init_state 4) s); [apply reach_init; reflexivity | vm_compute; reflexivity | exact E].
+    + vm_compute in E. injection E as <-. unfold acquired. cbn. repeat split; try reflexivity; try lia; auto.
+  - destruct (run 4 (init_state 4) ex_acts4) as [s|] eqn:E; [|vm_compute in E; discriminate].
+    exists s. split.
+    + apply (run_reach 4 ex_acts4 (init_state 4) s); [apply reach_init; reflexivity | vm_compute; reflexivity | exact E].
+    + vm_compute in E. injection E as <-. cbn. repeat split; reflexivity.
+Qed.
+
+(* ---- real-time form: the order of acquisitions ---- *)
+Inductive later (W : Z) : gst -> gst -> Prop :=
+| later_refl s : later W s s
+| later_step s s1 a s2 : later W s s1 -> step W s1 a s2 -> later W s s2.
+
+Lemma kinds_stable W s a s' : step W s a s' -> nextid s <= nextid s' /\ forall i, i < nextid s -> kinds s' i = kinds s i.
+Proof.
+  intros Hs. destruct a as [t c|t]; destruct Hs as [_ Hs].
+  - unfold begin in Hs. destruct (pcs s t); try discriminate Hs. destruct c; gcases Hs; subst s'; gcbn; split; auto; lia.
+  - unfold gstep in Hs. destruct (pcs s t) eqn:Hpc; lazy beta iota zeta in Hs; try discriminate Hs.
+    all: gcases Hs; subst s'.
+    all: try (destruct (enqb =? 0)).
+    all: gcbn; split; [lia|]; auto.
+    all: intros j Hj; apply upd_other; lia.
+Qed.
+
+Lemma later_facts W s s' : later W s s' ->
+  (reach W s -> reach W s') /\ (forall i, acquired s i -> acquired s' i) /\ nextid s <= nextid s' /\
+  (forall i, i < nextid s -> kinds s' i = kinds s i).
+Proof.
+  induction 1 as [s|s s1 a s2 L IH Hs]; [split; [auto|split; [auto|split; [lia|auto]]]|]. destruct IH as (A & B & C & D).
+  destruct (kinds_stable W s1 a s2 Hs) as [E F]. split; [|split; [|split]].
+  - intros R. exact (reach_step _ _ s1 a s2 (A R) Hs).
+  - intros i Hi. exact (acquired_stable W s1 a s2 Hs i (B i Hi)).
+  - lia.
+  - intros i Hi. rewrite F by lia. auto.
+Qed.
+
+Lemma acquired_dec s j : acquired s j \/ ~ acquired s j.
+Proof.
+  unfold acquired. destruct (Z_le_dec 0 j), (Z_lt_dec j (nextid s)), (In_dec Z.eq_dec j (popped s)), (In_dec Z.eq_dec j (pushed s));
+    try tauto; right; intros [X Y]; try lia; tauto.
+Qed.
+
+Lemma finished_step W s a s' : Inv2 s -> step W s a s' ->
+  incl (finished s) (finished s') /\ forall j, In j (finished s') -> acquired s j.
+Proof.
+  intros [O OT] Hs.
+  assert (X : finished s' = finished s -> incl (finished s) (finished s') /\ forall j, In j (finished s') -> acquired s j).
+  { intros ->. split; [apply incl_refl|]. intros j Hj. apply (q_hist s O). apply (q_fin s O). exact Hj. }
+  assert (Y : forall t i, runs (pcs s t) = Some i -> finished s' = i :: finished s ->
+              incl (finished s) (finished s') /\ forall j, In j (finished s') -> acquired s j).
+  { intros t i Hr ->. split; [apply incl_tl; apply incl_refl|]. intros j [<-|Hj].
+    - exact (proj1 (r_runs s t (OT t) i Hr)).
+    - apply (q_hist s O). apply (q_fin s O). exact Hj. }
+  destruct a as [t c|t]; destruct Hs as [_ Hs].
+  - unfold begin in Hs. destruct (pcs s t); try discriminate Hs. destruct c; gcases Hs; subst s'; apply X; fld.
+  - unfold gstep in Hs. destruct (pcs s t) eqn:Hpc; lazy beta iota zeta in Hs; try discriminate Hs.
+    all: gcases Hs; subst s'.
+    all: try (destruct (enqb =? 0)).
+    all: try (apply X; fld).
+    all: apply (Y t i); [rewrite Hpc; reflexivity|fld].
+Qed.
+
+(* A barrier that was acquired first: whatever is acquired later is acquired only after the barrier has finished.
+   "Acquired" is the successful compare-and-swap of a fast path (_dispatch_queue_try_acquire_barrier_sync,
+   _dispatch_queue_try_reserve_sync_width, _dispatch_queue_try_acquire_async) or the removal from the list by the drainer. *)
+Theorem later_items_wait_for_barrier W s1 s2 b j : 2 <= W <= 4094 -> reach W s1 -> later W s1 s2 ->
+  acquired s1 b -> kinds s1 b = true -> acquired s2 j -> ~ acquired s1 j -> In b (finished s2).
+Proof.
+  intros HW R L Ab Kb. induction L as [s|s s1 a s2 L IH Hs]; intros Aj Nj; [contradiction|].
+  destruct (later_facts W s s1 L) as (A & B & C & D). destruct (inv2_reach W s1 HW (A R)) as [HI1 H21].
+  destruct (finished_step W s1 a s2 H21 Hs) as [Fi Fa].
+  pose proof (acquired_dec s1 j) as Rj.
+  destruct Rj as [Rj|Rj]; [apply Fi; exact (IH R Ab Kb Rj Nj)|].
+  assert (R2 : reach W s2) by exact (reach_step _ _ s1 a s2 (A R) Hs).
+  destruct (inv2_reach W s2 HW R2) as [HI2 H22].
+  destruct (In_dec Z.eq_dec b (finished s2)) as [F|F]; [exact F|]. exfalso. apply Rj. apply Fa.
+  assert (L2 : later W s s2) by exact (later_step W s s1 a s2 L Hs).
+  destruct (later_facts W s s2 L2) as (_ & B2 & _ & D2).
+  apply (acquired_exclusion W s2 b j HI2 H22 (B2 b Ab)); auto.
+  - rewrite D2; [exact Kb|exact (proj2 (acquired_lt s b Ab))].
+  - intros ->. apply Nj. exact Ab.
+Qed.
+
+(* A barrier that is acquired later: it is acquired only when everything acquired before it has finished. *)
+Theorem barrier_waits_for_earlier_items W s1 s2 i b : 2 <= W <= 4094 -> reach W s1 -> later W s1 s2 ->
+  acquired s1 i -> acquired s2 b -> kinds s2 b = true -> ~ acquired s1 b -> In i (finished s2).
+Proof.
+  intros HW R L Ai. induction L as [s|s s1 a s2 L IH Hs]; intros Ab Kb Nb; [contradiction|].
+  destruct (later_facts W s s1 L) as (A & B & C & D). destruct (inv2_reach W s1 HW (A R)) as [HI1 H21].
+  destruct (finished_step W s1 a s2 H21 Hs) as [Fi Fa]. destruct (kinds_stable W s1 a s2 Hs) as [_ Ks].
+  pose proof (acquired_dec s1 b) as Rb.
+  destruct Rb as [Rb|Rb].
+  - apply Fi. apply (IH R Ai Rb); [|exact Nb]. rewrite <- Ks; [exact Kb|exact (proj2 (acquired_lt s1 b Rb))].
+  - assert (R2 : reach W s2) by exact (reach_step _ _ s1 a s2 (A R) Hs).
+    destruct (inv2_reach W s2 HW R2) as [HI2 H22].
+    assert (L2 : later W s s2) by exact (later_step W s s1 a s2 L Hs).
+    destruct (later_facts W s s2 L2) as (_ & B2 & _ & _).
+    apply (acquired_exclusion W s2 b i HI2 H22 Ab Kb); auto.
+    intros ->. apply Nb. exact Ai.
 Qed.
